@@ -347,8 +347,8 @@ fn drop_doc(sc: &Scenario, j: usize) -> Scenario {
 
 fn candidates(sc: &Scenario) -> Vec<Scenario> {
     let mut out: Vec<Scenario> = vec![];
-    // keep a single document
-    if sc.docs.len() > 1 {
+    // keep a single document (multirule histories address documents by code: leave them alone)
+    if sc.docs.len() > 1 && sc.kind != "multirule" {
         for keep in 0..sc.docs.len() {
             let mut c = sc.clone();
             for j in (0..sc.docs.len()).rev() {
